@@ -16,6 +16,28 @@ def encTag : LTag → Sexp
   | .openpar => atom "openpar" | .closepar => atom "closepar"
   | .cmp o => atom (encCmp o) | .and => atom "and" | .or => atom "or" | .not => atom "not" | .dot => atom "dot"
 
+/-- bound of a section in a `prim` request: `none` atom = absent, `(int 0)` = literal zero, anything else = other -/
+def decBnd : Sexp → Option Bnd
+  | atom "none" => none
+  | list [atom "int", atom "0"] => some .zero
+  | _ => some .other
+
+def encBnd : Option Bnd → Sexp
+  | none => atom "none" | some .zero => atom "zero" | some .other => atom "some"
+
+mutual
+/-- the `RangeIndex` parts the model predicts for every `(sec lo hi st)` of a primaries request, in text order -/
+def secsOf : Sexp → List Sexp
+  | list [atom "sec", lo, hi, st] =>
+      let r := rangeOf (mapSlice (sliceChildren (decBnd lo) (decBnd hi) (decBnd st)))
+      list [encBnd r.1, encBnd r.2.1, encBnd r.2.2] :: (secsOf lo ++ secsOf hi ++ secsOf st)
+  | list xs => secsOfList xs
+  | _ => []
+def secsOfList : List Sexp → List Sexp
+  | [] => []
+  | x :: xs => secsOf x ++ secsOfList xs
+end
+
 /-- `(parse style cst)`: tokens of the concrete tree, Loki-parser model on them, reference parser on them,
 class membership.  `(parsex style tok…)`: token-level request (may contain `.eqv.`/`.neqv.`). -/
 def step : Sexp → Option Sexp
@@ -30,6 +52,7 @@ def step : Sexp → Option Sexp
         list (atom "tags" :: (plex ts).map encTag),
         list [atom "tree", optS encE (pparse (plex ts))],
         list [atom "ref", optS encS ref]])
+  | list [atom "prim", _, px] => some (list [atom "ok", list (atom "secs" :: secsOf px)])
   | list (atom "parsex" :: _ :: toks) => do
       let xs ← decXToks toks
       let tags := plexX xs
